@@ -320,4 +320,7 @@ func runC13(rc *RunCtx) {
 		depth, budget, maxTraces = 5, 25*time.Minute, 20000
 	}
 	runScenarioCheck(rc, scn, depth, budget, maxTraces, "")
+	agree, total := govPathAgreement(rc, scn.Genesis, c13Payloads())
+	rc.Cov["gov_payloads_also_run_through_a_real_proposal"] = total
+	rc.Cov["gov_payloads_agreeing_with_the_shortcut"] = agree
 }
